@@ -42,6 +42,7 @@ public:
   { 
     delete[] (char*)buffer;
     buffer = 0;
+    _capacity = 0;
     bufferStart = data;
     bufferEnd = data + length;
   }
@@ -59,7 +60,10 @@ public:
       buffer = (byte*)new char[size + 1];
     }
     else if(!buffer)
+    {
+      bufferEnd = bufferStart;
       return *this;
+    }
     Memory::copy(buffer, other.bufferStart, size);
     bufferStart = buffer;
     bufferEnd = buffer + size;
@@ -76,7 +80,10 @@ public:
       buffer = (byte*)new char[size + 1];
     }
     else if(!buffer)
+    {
+      bufferEnd = bufferStart;
       return;
+    }
     Memory::copy(buffer, data, size);
     bufferStart = buffer;
     bufferEnd = buffer + size;
@@ -132,7 +139,8 @@ public:
   {
     resize(bufferEnd - bufferStart + size);
     Memory::copy(bufferEnd - size, data, size);
-    *bufferEnd = 0;
+    if(buffer)
+      *bufferEnd = 0;
   }
 
   void append(const Buffer& data)
@@ -140,7 +148,8 @@ public:
     usize size = data.bufferEnd - data.bufferStart;
     resize(bufferEnd - bufferStart + size);
     Memory::copy(bufferEnd - size, data.bufferStart, size);
-    *bufferEnd = 0;
+    if(buffer)
+      *bufferEnd = 0;
   }
 
   void resize(usize size)
@@ -149,7 +158,8 @@ public:
     {
         _capacity = size;
       byte* newBuffer = (byte*)new char[size + 1];
-      Memory::copy(newBuffer, bufferStart, bufferEnd - bufferStart);
+      usize oldSize = bufferEnd - bufferStart;
+      Memory::copy(newBuffer, bufferStart, oldSize < size ? oldSize : size);
       delete[] (char*)buffer;
       bufferStart = buffer = newBuffer;
       bufferEnd = newBuffer + size;
@@ -170,6 +180,8 @@ public:
         *bufferEnd = 0;
       }
     }
+    else
+      bufferEnd = bufferStart;
   }
 
   void removeFront(usize size)
@@ -189,7 +201,8 @@ public:
       bufferStart = bufferEnd = buffer ? buffer : (byte*)&_capacity;
     else
       bufferEnd -= size;
-    *bufferEnd = 0;
+    if(buffer)
+      *bufferEnd = 0;
   }
 
   usize size() const {return bufferEnd - bufferStart;}
@@ -197,11 +210,13 @@ public:
 
   void reserve(usize capacity)
   {
+    usize size = bufferEnd - bufferStart;
+    if(capacity < size)
+      capacity = size;
     if(capacity <= _capacity)
       return;
     _capacity = capacity;
     byte* newBuffer = (byte*)new char [capacity + 1];
-    usize size = bufferEnd - bufferStart;
     Memory::copy(newBuffer, bufferStart, size);
     delete[] (char*)buffer;
     bufferStart = buffer = newBuffer;
